@@ -40,6 +40,11 @@ Rhs(C, x) == Add(C.F, Add(C.F, Cube(C.F, x), Mul(C.F, C.a, x)), C.b)
 IsPoint(C, P) == P = INF \/ (Len(P) = 2 /\ IsElem(C.F, P[1]) /\ IsElem(C.F, P[2]))
 OnCurve(C, P) == P = INF \/ Sqr(C.F, P[2]) = Rhs(C, P[1])
 
+\* number of points by Euler's criterion: 1 + sum over x of (1 + chi(x^3 + a x + b))
+CountPoints(C) ==
+  1 + FoldLeft(LAMBDA acc, x : acc + (IF Rhs(C, x) = Zero(C.F) THEN 1 ELSE IF IsSquare(C.F, Rhs(C, x)) THEN 2 ELSE 0),
+               0, SetToSeq(Elem(C.F)))
+
 PNeg(C, P) == IF P = INF THEN INF ELSE <<P[1], Neg(C.F, P[2])>>
 
 PDouble(C, P) ==
